@@ -10,7 +10,7 @@ SCHEDULE_DEPENDENT = True
 RULE = ('the real ActiveFabric driven by seeded histories over {start, start again while running, stop, stop again, clear, '
         'subscribe, publish, is_alive, start of an active object (which starts the fabric if it is not alive), waking an '
         'active object after a fabric stop}: one client for the sequential histories, 2-3 clients for concurrent start() / '
-        'ActiveObject.start_at calls (line and bytecode granularity inside start/initiate_thread/start_thread). Oracle: the '
+        'ActiveObject.start_at calls (line and bytecode granularity inside start/initiate_thread/start_thread); in 40% of the sequential histories a delivery thread is stalled for up to a minute of virtual time (slow node), possibly in the middle of a delivery. Oracle: the '
         'kernel counts live delivery threads itself at every pre-emption point - never more than one fifo and one lifo '
         'thread; is_alive() equals "both kernel-level threads are alive" whenever that did not change during the call; after '
         'stop() returns (it must return: deadlock detection) both threads are dead and an active object woken afterwards ends '
@@ -52,6 +52,13 @@ def generate(seed, stratum, tier):
     ops += [['start'], ['is_alive'], ['subscribe', 1, 'SZ', rng.choice(['fifo', 'lifo']), 'event'], ['publish', 'SZ', None], ['sleep', 0.01], ['is_alive']]
     clients = [ops]
     sd = common.draw_sched(rng, grans=('sync', 'line'), expected_steps=500, victims=['fabric.fifo'])
+    sc = {'queues': queues, 'clients': clients, 'stratum': stratum, 'sched': sd}
+    if rng.random() < 0.4:
+      # the "slow node" fault aimed at the delivery threads: one of them is descheduled for up to minutes of virtual
+      # time, possibly in the middle of a delivery, while the client goes on to stop and restart the fabric
+      sc['stalls'] = common.draw_stalls(rng, 400, rate=1.0, n=(1, 4), durations=(50000, 1500000, 5000000, 60000000))
+      sc['stall_roles'] = ['fabric.fifo', 'fabric.lifo']
+    return sc
   else:
     nclients = rng.randrange(2, 4)
     clients = []
@@ -70,6 +77,11 @@ def generate(seed, stratum, tier):
 
 def shrink_candidates(sc):
   cl = sc['clients']
+  if sc.get('stalls'):
+    yield {k: v for k, v in sc.items() if k not in ('stalls', 'stall_roles')}
+    if len(sc['stalls']) > 1:
+      for k in sorted(sc['stalls']):
+        yield dict(sc, stalls={kk: v for kk, v in sc['stalls'].items() if kk != k})
   for i, s in enumerate(cl):
     for j in range(len(s) - 1, -1, -1):
       yield dict(sc, clients=cl[:i] + [s[:j] + s[j + 1:]] + cl[i + 1:])
